@@ -45,4 +45,25 @@ def nameOf (r : Except Err Loaded) : Option String := r.toOption.map (fun l => S
 def errOf (r : Except Err Loaded) : Option Err := match r with | .error e => some e | .ok _ => none
 def varOf (k : String) (r : Except Err Loaded) : Option String := r.toOption.bind (fun l => (l.env.get k.toList).map String.ofList)
 
+/-! the world of the boundary witnesses of `Neg/C17.lean` -/
+
+def negFa : List (Str × Str) := [("V".toList, "a".toList), ("X".toList, "1".toList)]
+def negFb : List (Str × Str) := [("X".toList, "2".toList), ("S".toList, "$X".toList)]
+
+def negW : World where
+  dirs := [{ name := "p".toList, files := [("c".toList, [none])] }]
+  given := [{ dir := 0, file := some "c".toList }]
+  os := strs ["V=o"]
+  envFiles := [("a".toList, .file (renderSimple negFa)), ("b".toList, .file (renderSimple negFb))]
+  probe := []
+
+theorem negW_file_a : lookupFile negW (.named "a".toList) = some (.file (renderSimple negFa)) := by decide
+theorem negW_file_b : lookupFile negW (.named "b".toList) = some (.file (renderSimple negFb)) := by decide
+
+/-- unfold a concrete run down to the grammar evaluator -/
+macro "neg_eval_run" : tactic => `(tactic|
+  (simp only [run, runOpts, applyOpt, withEnvFiles, strs, List.map, getEnvFromFile, negW_file_a, negW_file_b,
+     parseFile_renderSimple _ negFa (by decide), parseFile_renderSimple _ negFb (by decide)]))
+
+
 end CV.Name
